@@ -13,7 +13,7 @@ import YashModel.Syntax.Spec
 open YashModel YashModel.Syntax YashModel.Proto
 
 def runLine (line : String) : String :=
-  if line.startsWith "R " then "total\t-" else
+  if line.startsWith "R " || line.startsWith "G " then "total\t-" else
   -- `E <Variant> <source>` / `EP …`: a recorded syntax-error class; the model has no error model and echoes it
   if line.startsWith "E " || line.startsWith "EP " then
     match line.splitOn " " with
